@@ -1,1 +1,40 @@
-"""placeholder until the extractor slice lands (p_loc): nothing to regenerate"""
+"""Regenerates lean/RulioModel/Gen/Loc.lean from the Go sources (core/location.go, core/state.go,
+core/events.go) with harness/cmd/extract_loc.  Called by the checks of C19 / C10 / C07 before the proofs
+are built: `ok, msg = extract_loc.regenerate()`.
+
+The Lean file is rewritten only when its content changes (so an unchanged tree keeps the Lean build warm).
+The theorems `guards_match_model` and `gen_defs_match_model` of Props/C19.lean (and the users of
+`Gen.notAfterCmp` in Props/C07.lean) are about the regenerated text: removing or reordering a guard in
+location.go, or flipping one of the translated comparisons, makes the Lean build fail there.
+"""
+import os, subprocess
+
+VERIF = os.path.dirname(os.path.dirname(os.path.abspath(__file__)))
+HARNESS = os.path.join(VERIF, "harness")
+GEN = os.path.join(VERIF, "lean", "RulioModel", "Gen", "Loc.lean")
+
+
+def regenerate(repo=None, out=None, timeout=600):
+    """Runs the extractor on `repo` (default $VERIF_REPO or /repo). Returns (ok, message); the message holds
+    what was extracted (one line per method / definition) or the extractor's complaint."""
+    repo = repo or os.environ.get("VERIF_REPO", "/repo")
+    out = out or GEN
+    env = dict(os.environ, GOFLAGS="-mod=mod", GOPROXY="off", GOSUMDB="off", GOTOOLCHAIN="local")
+    cmd = ["go", "run", "./cmd/extract_loc", "-repo", repo, "-out", out]
+    try:
+        p = subprocess.run(cmd, cwd=HARNESS, env=env, timeout=timeout,
+                           stdout=subprocess.PIPE, stderr=subprocess.STDOUT, text=True)
+    except Exception as e:  # go missing, timeout, ...
+        return False, "extract_loc could not run: %r" % (e,)
+    if p.returncode != 0:
+        return False, "extract_loc failed (exit %d):\n%s" % (p.returncode, p.stdout)
+    if not os.path.exists(out):
+        return False, "extract_loc did not write %s:\n%s" % (out, p.stdout)
+    return True, p.stdout
+
+
+if __name__ == "__main__":
+    import sys
+    ok, msg = regenerate(*(sys.argv[1:2]))
+    print(msg)
+    sys.exit(0 if ok else 1)
